@@ -107,6 +107,7 @@ func (lg *locGen) op() map[string]interface{} {
 		"expiry":    {25, 12, 3, 2, 14, 2, 14, 12, 2, 0, 0, 0, 2, 8, 0, 0, 0},
 		"query":     {34, 2, 6, 0, 2, 0, 6, 0, 0, 1, 0, 0, 0, 3, 1, 40, 0},
 		//            (addrule weight is used for rules with conditions/actions; last column: process)
+		"cache":     {26, 12, 8, 5, 8, 3, 12, 10, 4, 1, 3, 2, 3, 0, 0, 0, 0},
 		"cronhooks": {14, 34, 8, 14, 2, 2, 2, 3, 3, 3, 0, 0, 1, 8, 0, 0, 6},
 		"durable":   {30, 12, 10, 5, 6, 2, 10, 5, 4, 1, 2, 1, 2, 9, 0, 0, 0},
 		"events":    {22, 26, 4, 4, 1, 1, 2, 2, 5, 1, 0, 0, 0, 3, 0, 0, 40},
@@ -126,7 +127,7 @@ func (lg *locGen) op() map[string]interface{} {
 	switch k {
 	case 0:
 		o["op"] = "addfact"
-		if r.Intn(5) != 0 || lg.profile == "durable" {
+		if r.Intn(5) != 0 || lg.profile == "durable" || lg.profile == "cache" {
 			// (durable: a generated id of an add that fails at the storage is not reported back)
 			o["id"] = id
 		}
@@ -157,7 +158,7 @@ func (lg *locGen) op() map[string]interface{} {
 		o["fact"] = f
 	case 1:
 		o["op"] = "addrule"
-		if r.Intn(8) != 0 || lg.profile == "durable" {
+		if r.Intn(8) != 0 || lg.profile == "durable" || lg.profile == "cache" {
 			o["id"] = id
 		}
 		rule := rulePat(lg.pattern(lg.events[r.Intn(len(lg.events))]))
@@ -240,7 +241,8 @@ func (lg *locGen) op() map[string]interface{} {
 		for i := 0; i < n; i++ {
 			ps = append(ps, lg.locs[r.Intn(len(lg.locs))])
 		}
-		if r.Intn(15) == 0 {
+		if r.Intn(15) == 0 && lg.profile != "cache" {
+			// (a System creates unknown parents on demand)
 			ps = append(ps, "nowhere")
 		}
 		o["parents"] = ps
